@@ -6,7 +6,7 @@ from ..core import Workload
 from ..env import ptn
 from .c01 import _qd, add_structure
 
-GRID = [0.0, 0.0, 1e-14, 1e-10, 1e-6, 1e-4, 1e-3, 1e-2, 0.03, 0.1, 0.2]
+GRID = [0.0, 0.0, 1e-24, 1e-20, 1e-17, 1e-14, 1e-10, 1e-6, 1e-4, 1e-3, 1e-2, 0.03, 0.1, 0.2]
 
 
 def make_state(rng, kind, L, d):
@@ -22,7 +22,7 @@ def make_state(rng, kind, L, d):
         return psi
     qd = _qd(rng, d, 'zero')
     psi = gen.rand_mps(rng, qd, L, 'over' if kind == 'over' else 'random', Dmax=6, kind=str(rng.choice(['complex', 'real'])))
-    if kind in ('flat', 'staircase', 'decaying'):
+    if kind in ('flat', 'staircase', 'decaying', 'weak-tail'):
         # shape the spectra: canonicalise, then scale the bonds
         psi.orthonormalize('left')
         for i in range(1, L):
@@ -31,6 +31,10 @@ def make_state(rng, kind, L, d):
                 s = np.ones(D)
             elif kind == 'staircase':
                 s = np.repeat(2.0 ** -np.arange((D + 1) // 2), 2)[:D]
+            elif kind == 'weak-tail':
+                # order-one Schmidt values followed by a tail at 1e-8 .. 1e-12 (relative weights 1e-16 .. 1e-24)
+                nb = max(1, D // 2)
+                s = np.concatenate([rng.uniform(0.3, 1, size=nb), 10.0 ** -rng.uniform(7.5, 12, size=D - nb)])
             else:
                 s = np.exp(-rng.uniform(0.5, 3) * np.arange(D))
             psi.A[i] = psi.A[i] * s[None, :, None]
@@ -42,7 +46,7 @@ def compress_case(ctx, idx, rng):
     d = int(rng.choice([2, 2, 3, 4, 1]))
     while d ** L > 4096:
         L -= 1
-    kind = ('product', 'random', 'flat', 'staircase', 'decaying', 'over', 'sectors')[idx % 7]
+    kind = ('product', 'random', 'flat', 'staircase', 'decaying', 'over', 'sectors', 'weak-tail')[idx % 8]
     psi = make_state(rng, kind, L, d)
     if idx % 9 == 4 and kind in ('random', 'over', 'sectors'):
         # tensors rescaled to LOOK canonical (Frobenius norm^2 = bond dimension, or unit-norm slices) without being isometries
@@ -54,8 +58,8 @@ def compress_case(ctx, idx, rng):
     if n0 == 0:
         ctx.case(('compress', kind, 'zero-state'), nontrivial=False)
         return
-    mode = ('left', 'right')[(idx // 7) % 2]
-    struct = ('none', 'none', 'dead', 'dup', 'sparse')[(idx // 14) % 5]
+    mode = ('left', 'right')[(idx // 8) % 2]
+    struct = ('none', 'none', 'dead', 'dup', 'sparse')[(idx // 16) % 5]
     if struct != 'none':
         psi.A = [np.array(a, dtype=complex) for a in psi.A]
         add_structure(rng, psi, False, struct)
@@ -123,7 +127,7 @@ def compress_case(ctx, idx, rng):
     ctx.ok('compress.boundary-charges-kept', np.array_equal(psi.qD[0], ends[0]) and np.array_equal(psi.qD[-1], ends[1]), 'boundary charges changed', detail)
     err2 = float(np.linalg.norm(nrm * scale * v1 - v0) ** 2)
     ctx.close('compress.error-identity', abs(err2 - nrm ** 2 * (1 - scale ** 2)) / n0 ** 2, 1e-10, '|nrm*scale*new - old|^2 != nrm^2 (1 - scale^2)', detail)
-    ctx.ok('compress.error-bound', err2 <= n0 ** 2 * (L * tol + 1e-10), f'error^2 {err2 / n0 ** 2:.3e} > L*tol = {L * tol:.3e}', detail)
+    ctx.ok('compress.error-bound', err2 <= n0 ** 2 * (np.sqrt(L * tol) + 1e-11) ** 2, f'error^2 {err2 / n0 ** 2:.3e} > L*tol = {L * tol:.3e}', detail)
     if tol == 0:
         ctx.close('compress.tol0-exact', np.sqrt(err2), 1e-10 * n0, 'zero tolerance must be exact', detail)
     if sig is not None:
@@ -193,7 +197,7 @@ def from_vector_case(ctx, idx, rng):
         dense = np.ldexp(dense.real, -kx) + 1j * np.ldexp(dense.imag, -kx)
         v0 = v_unscaled
     err = float(np.linalg.norm(dense - v0)) / float(np.linalg.norm(v0))
-    ctx.ok('from_vector.error-bound', err <= np.sqrt(L * tol) + 1e-10, f'relative error {err:.3e} > sqrt(L*tol) = {np.sqrt(L * tol):.3e}', detail)
+    ctx.ok('from_vector.error-bound', err <= np.sqrt(L * tol) + 1e-11, f'relative error {err:.3e} > sqrt(L*tol) = {np.sqrt(L * tol):.3e}', detail)
     if tol == 0:
         ctx.close('from_vector.tol0-exact', err, 1e-10, 'zero tolerance must reproduce the vector', detail)
     # first bond keeps what the rule prescribes for the spectrum of the first unfolding
